@@ -208,6 +208,15 @@ class C06(Spec):
         q.defines = [d for d in q.defines if d != 'VF_FREE_NOOP']
         q.mem_gb = 10
         qs.append(q)
+        # hand-back of the per-call error message (strcpy between message buffers), for ANY message
+        # that fits the per-call object's buffer: real FUNC(verify)/FUNC(generate) around contract stubs
+        for side, units, rb in (('verify', CORE_UNITS, ['jwt_parse', 'jwt_verify_complete']),
+                                ('generate', BUILDER_UNITS, ['jwt_head_setup', 'jwt_encode_str'])):
+            q = Query('C06.errcopy.%s' % side, 'errcopy.c', units, defines=['VJ_MAXM=4'] + (['SIDE_CHECKER'] if side == 'verify' else []),
+                      unwind=14, checks='memsafe-noconv', budget=600, remove_bodies=rb,
+                      bounds={'message': 'any NUL-terminated text that fits the per-call object\'s own message buffer'})
+            q.unwindset = {'strlen.0': 600, 'strcpy.0': 600, 'terminated.0': 600}
+            qs.append(q)
         # the codec under the exact allocator (shared with C11) and both provider verify units
         qs.append(Query('C06.codec.decode.M16', 'codec.c', CODEC_UNITS, models=['alloc', 'jansson_model', 'env'],
                         defines=['SIDE_DECODE', 'M=16', 'VF_EXACT_END', 'VF_CAP=24'], unwind=22, checks='memsafe-noconv', bounds={'M': 16}))
@@ -493,6 +502,15 @@ class C20(Spec):
                     q.unwindset['main.0'] = n + 2
                     q.unit_override = {'tools/jwt-verify.c': tool_gb}
                     qs.append(q)
+        # stdin route, line handling: arbitrary line text, last line with or without a newline
+        for n in ((2,) if tier == 'quick' else (1, 2, 3)):
+            q = Query('C20.stdin.lines.n%d' % n, 'tool_verify.c', TOOLV_UNITS, models=TOOL_MODELS,
+                      defines=['SIDE_EXIT', 'STDIN', 'LINES', 'QUIET', 'NTOK=%d' % n, 'VF_FREE_NOOP'], unwind=16, checks='pointer', budget=900,
+                      bounds={'lines': n, 'line text': '0..3 arbitrary bytes (no NUL, no newline)', 'last line': 'with or without a newline'})
+            q.unwindset = {'tool_main.%d' % k: 17 for k in range(4)}
+            q.unit_override = {'tools/jwt-verify.c': tool_gb}
+            q.mem_gb = 10
+            qs.append(q)
         opts = usage_options(os.path.join(REPO, 'tools/jwt-verify.c'))
         write_opts_header(os.path.join(bld.gen, 'c20_verify_opts.h'), opts)
         # key2jwk: fixed-width EC members (process_ec_key driven directly)
@@ -631,6 +649,14 @@ class C17(Spec):
             q = builder_q('C17.generate.k%02d' % k, ['PROP_C17', 'PROP_C10', 'FAULT_K=%d' % k, 'VF_NO_REACH', 'C17_SIMPLE'])
             q.bounds['failing allocation index'] = k
             qs.append(q)
+        # object lifecycle: new / configure / free with the k-th request failing (memory safety on)
+        for side, units in (('checker', CORE_UNITS), ('builder', BUILDER_UNITS)):
+            for k in ([-1] + list(range(0, 8 if tier == 'quick' else 12))):
+                q = Query('C17.lifecycle.%s.%s' % (side, 'nofault' if k < 0 else 'k%02d' % k), 'lifecycle.c', units,
+                          defines=['FAULT_K=%d' % k, 'VJ_CHECK_DEAD', 'VJ_MAXM=4'] + (['SIDE_CHECKER'] if side == 'checker' else []),
+                          unwind=14, checks='memsafe-noconv', budget=600,
+                          bounds={'failing allocation index': k, 'scenario': 'new, setkey, one claim (and header) set/get, leeway/offset, free'})
+                qs.append(q)
         for sh, sn in ((2, 'single'), (5, 'keys1')):
             # the later the fault, the more of the (memory-hungry) load path is executed symbolically
             ks = (range(0, 6) if sn == 'single' else range(0, 4)) if tier == 'quick' else range(0, 11)
